@@ -31,4 +31,7 @@ class WithDims(Transform):
     def _apply(self, x, **kwargs):
         # if self.dims is a single number we will return an array with the
         # spatial dimension missing - always reshape to avoid this case.
-        return x[:, self.dims].reshape([x.shape[0], -1]).copy()
+        selected = x[:, self.dims]
+        if selected.ndim == 1:
+            selected = selected[:, None]
+        return selected.copy()
